@@ -612,7 +612,7 @@ impl Scenario for IncScn {
                     for (ci, c) in creators.iter().enumerate() {
                         let amts: &[u64] = if ci == 0 { &[999, 1000, 2000, 1_001_000] } else { &[3000] };
                         for &a in amts {
-                            let fk: &[&str] = if ci == 0 && a >= 2000 { &["exact", "fee_only", "amount_only", "over"] } else { &["exact"] };
+                            let fk: &[&str] = if ci == 0 && a >= 2000 { &["exact", "fee_only", "amount_only", "over", "nothing"] } else { &["exact"] };
                             for f in fk {
                                 v.push(IAct::OpenFlow { creator: c.clone(), amount: a, funds: f.to_string(), end_delta: 3 });
                             }
@@ -626,7 +626,7 @@ impl Scenario for IncScn {
                     }
                 }
                 for (id, f) in g.flows.iter() {
-                    for (a, fk) in [(1u64, "exact"), (1_000_000, "exact"), (5000, "short")] {
+                    for (a, fk) in [(1u64, "exact"), (1_000_000, "exact"), (5000, "short"), (5000, "nothing")] {
                         v.push(IAct::ExpandFlow { id: *id, amount: a, funds: fk.to_string(), by: f.creator.clone() });
                     }
                     v.push(IAct::ExpandFlow { id: *id, amount: 777, funds: "exact".into(), by: MALLORY.into() });
@@ -1039,6 +1039,7 @@ impl Scenario for IncScn {
                 let same = h.fee == h.reward;
                 // what the creator actually provides
                 let (reward_sent, fee_sent): (u128, u128) = match (funds.as_str(), same) {
+                    ("nothing", _) => (0, 0),
                     ("exact", true) => (declared, 0),
                     ("exact", false) => (declared, FLOW_FEE),
                     ("fee_only", true) => (FLOW_FEE, 0),
@@ -1112,9 +1113,9 @@ impl Scenario for IncScn {
             }
             IAct::ExpandFlow { id, amount, funds, by } => {
                 let amt = *amount as u128 * h.scale;
-                let sent = if funds == "short" { amt - 1 } else { amt };
+                let sent = if funds == "short" { amt - 1 } else if funds == "nothing" { 0 } else { amt };
                 let coins = match &h.reward {
-                    AssetInfo::NativeToken { denom } => vec![coin(sent, denom)],
+                    AssetInfo::NativeToken { denom } => if sent == 0 { vec![] } else { vec![coin(sent, denom)] },
                     AssetInfo::Token { contract_addr } => {
                         set_allowance(w, contract_addr, by, &h.incentive, sent);
                         vec![]
